@@ -44,14 +44,15 @@ LEVEL_TEXT = (
     "skip_path_purges, closing_ignores_unselected_records + pass_ignores_unselected_records (the pass after which every SELECTED "
     "handler has finished closes the cycle and purges every record whatever else the object carries, e.g. the unfinished record, same "
     "purpose, of a handler de-selected while retrying — the states of seed C03d, instance deselected_unfinished_instance; final_state "
-    "and converges have no hypothesis excluding them). final_state / converges(_finitely_failing) are now UNGUARDED as to WHICH object: "
-    "for every object that still exists at quiescence — seen by the framework or blind (no handler's filters accept it), in deletion "
-    "(held by a foreign finalizer only) or not — no owned progress record remains and a further event causes no write; 'last-handled = "
-    "essence' is stated for the objects the property speaks of (the framework sees it, it is not in deletion: for a blind or FREE "
-    "object no handler is selected and the last-handled state is left alone BY DESIGN — 423b86f's message — so that the changes made "
-    "meanwhile arrive as ONE accumulated update; corpus blind_then_matching_again). blind_purges / free_purges: the turn without "
-    "handlers purges the leftover records PRESENT (one PATCH + its echo, else nothing). The former guards' witnesses are kept as "
-    "regressions of the OLD turn `loopStepOld`: blind_witness (C03-F2, repaired by 423b86f), free_witness (C03-N4, repaired by 40d09eb). "
+    "and converges have no hypothesis excluding them). final_state / converges(_finitely_failing) speak of EVERY object that still exists "
+    "at quiescence — seen by the framework or blind (no handler's filters accept it), in deletion (held by a foreign finalizer only) or "
+    "not: a further event causes no write; 'no owned progress record remains' is GUARDED by `prematch` AGAIN (/repo ad4ec08 took the "
+    "blind purge of 423b86f back: it went by handler id and annotation prefix, which every deployment of the same operator code shares "
+    "— C15-F9): blind_left_alone (a blind object is not written to at all) and the genuine negative blind_witness (C03-F2, OPEN again "
+    "by decision; corpus F2); the FREE case stays unguarded (free_purges, 40d09eb; free_witness = regression of the OLD turn "
+    "`loopStepOld`, C03-N4). 'last-handled = essence' is stated for the objects the property speaks of (the framework sees it, it is not in "
+    "deletion: for a blind or FREE object no handler is selected and the last-handled state is left alone BY DESIGN so that the "
+    "changes made meanwhile arrive as ONE accumulated update; corpus blind_then_matching_again). "
     "PARTIAL, each with the exact guard in its statement and a proved witness "
     "that the guard is needed, replayed on the real code through the corpus: completed_against_final_partial under 'the handler has not finished yet — by a record "
     "of ITS OWN, one the pass takes over (`vis`) — when the final state arrives' — absorbed_change_witness (OPEN C03-F4). The second former "
@@ -85,7 +86,7 @@ LEVEL_TEXT = (
     "they were); inconsistent_converges: FULL convergence whatever the view of the first turn. The former negation is kept as a "
     "regression of the OLD turn `loopStepIOld`: inconsistent_nonempty_witness (C03-N6, two corpus witnesses, tied on the real "
     "operator's cycles; repaired by 30557a0). "
-    "Repaired in /repo and kept as regressions: C03-F1 (2ae938f), C03-F2 (423b86f), C03-F3 (d1b2dc4), C03-F5 (1c8f3dd, finalizer "
+    "Repaired in /repo and kept as regressions: C03-F1 (2ae938f), C03-F3 (d1b2dc4), C03-F5 (1c8f3dd, finalizer "
     "functions only — the rest was C03-N2, 608a57d + 02af7ce), C03-F7 (7224f57), C03-N1 "
     "(b7bf39c, sleeping_handler_woken_instance), C03-N3 (f7d6401, shared_id_regression), C03-N4 (40d09eb), C03-N6 (30557a0), 5dff3c1 (lost echo + constant on.event result). C03-F6 (name-addressed patches "
     "after delete+recreate) lies in C08's part and is found by the oracle only; C03-N5 (a graceful stop that never finished: an "
@@ -93,7 +94,7 @@ LEVEL_TEXT = (
     "`writes + cp env`: with a constant patch one request per event is sent, changing nothing. ORACLE/TIE ONLY: changes made while "
     "down are seen after the start (`restart` sets `pending` by definition; tie), old/new/diff of the accumulated change, delivery "
     "timings (one `pending` flag; stale/suppressed cycles are C07's). The model is hand-written and tied per turn to "
-    "whole-operator simulations incl. finalizer turns, deletion tails, foreign finalizers, blind and FREE purges, patch functions "
+    "whole-operator simulations incl. finalizer turns, deletion tails, foreign finalizers, blind turns (nothing written) and FREE purges, stacked registrations (one id, two causes), patch functions "
     "without operations, held-back cycles that come back after the deadline; "
     "daemons (C09), whether the consistency barrier is up (C07), patch conflicts and how a patch comes to be carried (C08) are outside this model.")
 THEOREMS = [("Kopf.Props.C03", "Kopf.C03." + n) for n in [
@@ -101,7 +102,7 @@ THEOREMS = [("Kopf.Props.C03", "Kopf.C03." + n) for n in [
     "converges", "converges_finitely_failing", "deletion_converges", "deletion_converges_finitely_failing",
     "all_selected_completed", "completed_against_final_partial", "absorbed_change_witness",
     "open_pass_leaves_event", "sleeping_handler_woken_instance", "invoked_once_after_last_change", "restart_safe",
-    "accumulated_change", "blind_purges", "blind_witness", "free_purges", "free_witness", "shared_id_regression",
+    "accumulated_change", "blind_left_alone", "blind_witness", "free_purges", "free_witness", "shared_id_regression",
     "pass_is_cycleB", "namesake_children_leak_witness",
     "carried_none", "carried_noop_comes_back", "carried_ops_leaves_event", "carried_converges",
     "carried_noop_witness", "carried_noop_blocks_release_witness",
@@ -144,9 +145,9 @@ ASSUMPTIONS = ["GUARD FiltersStable: selection / prematch / finalizer requiremen
                "(terminates_or_fails) and for AllFinal (terminates)",
                "an object NO handler matches (any more) is outside the operator's scope: the oracle does not require its "
                "last-handled annotation to equal the essence (an outdated one is what makes the changes made meanwhile arrive "
-               "as ONE accumulated update when it matches again); leftover progress RECORDS on it are a violation (formerly the "
-               "finding C03-F2, repaired by 423b86f). Likewise for an object in deletion that only others hold (formerly C03-N4, "
-               "repaired by 40d09eb)",
+               "as ONE accumulated update when it matches again); leftover progress RECORDS on it are a violation (the "
+               "finding C03-F2: repaired by 423b86f, OPEN again since ad4ec08 took that back). Likewise for an object in deletion "
+               "that only others hold (formerly C03-N4, repaired by 40d09eb)",
                "progress records live in annotations (the default storage); StatusProgressStorage / SmartProgressStorage and "
                "sub-handlers (but for the corpus witnesses N7, N8), when= filters, field= filters with value=/old=/new= are not generated "
                "(C16's, C13's, C15's subjects)",
@@ -183,11 +184,8 @@ ASSUMPTIONS = ["GUARD FiltersStable: selection / prematch / finalizer requiremen
                "nothing came, the object's last, is C03-N6 and breaks the tie); "
                "the generator reaches it through a foreign edit + stream cut (410) before the echo of an own write is delivered, "
                "with an on.event handler that returns a constant or appends an idempotent function",
-               "the finalizer-removing turn on a BLIND object that still carries progress records sends the purge of the leftovers "
-               "(423b86f) with it: merge-patch + JSON-patch, two requests with two echoes; the model's turn (`remState`) is atomic over "
-               "both; NOT modelled: the echo of the merge half is processed as a cycle of its own (blind and still blocked on its "
-               "view) whose finalizer JSON-patch is rejected with 422 — one wasted request, then silence; such tails are skipped by "
-               "the tie (`finalizer-turn+purge`, counted; corpus blind_blocked_leftovers_two_requests), the oracle judges them",
+               "the finalizer-removing turn on a BLIND object is a single JSON-patch again (ad4ec08; corpus "
+               "blind_blocked_leftovers_two_requests is tied like every other tail now)",
                "tail cycles the model has no turn for are dropped and COUNTED (`tail_leading_cycles_dropped`): cycles held back by "
                "the consistency barrier (C07), cycles on a view older than the server's state (echoes still in flight when the "
                "environment fell silent), a finalizer edit that also cleans the touch-dummy (two requests, two echoes), the echo "
@@ -917,13 +915,6 @@ def abstract_tail(sc: dict, tr: dict, cap: int) -> tuple[list | None, Any]:
             return len(later) == 1 and all(isinstance(r.get("response"), int) and r["response"] < 300 for r in mine)
         return c is cycles[-1] and not later and f.final is not None
 
-    def purge_too(c: dict) -> bool:
-        """A finalizer-removing turn on a blind object that still carries progress records: the purge of the leftovers
-        (/repo 423b86f) goes out with it — merge-patch + JSON-patch, two requests, two echoes; the echo of the merge half is
-        processed as a cycle of its own whose finalizer JSON-patch is rejected (422): C06/C08's subject."""
-        return blind and fin_turn(c) == "remove-finalizer" and \
-            any(own_record(c["body"], h) is not None for h in _all_ids(sc))
-
     dropped_dummy = False
     dropped: dict[str, int] = {}
     inconsistent = None
@@ -938,8 +929,6 @@ def abstract_tail(sc: dict, tr: dict, cap: int) -> tuple[list | None, Any]:
         dropped[why] = dropped.get(why, 0) + 1
         dropped_dummy = dropped_dummy or bool(fin_turn(cycles[0]) and not stale(cycles[0]))
         cycles.pop(0)
-    if any(purge_too(c) for c in cycles):
-        return None, "finalizer-turn+purge"
     # inside the tail: the echo of the merge half of a two-request write (e.g. the release: purge + finalizer removal),
     # held back by the barrier (C07) — the model's turn is atomic over both requests
     for c in [c for c in cycles[1:-1] if suppressed(c) and not (inconsistent and c is cycles[0])]:
@@ -1050,7 +1039,7 @@ def abstract_tail(sc: dict, tr: dict, cap: int) -> tuple[list | None, Any]:
     for k, c in enumerate(cycles):
         if c.get("pcc") is None:
             # a turn that does not reach `process_changing_cause` (blind, finalizer, held back, carried): what it left on the
-            # object is read off the next cycle's body / the final object (a blind turn purges the leftovers: /repo 423b86f)
+            # object is read off the next cycle's body / the final object (a blind turn leaves everything: /repo ad4ec08)
             after = cycles[k + 1]["body"] if k + 1 < n else f.final
             if after is not None:
                 passes[k]["P"] = py_records(after, owned)
